@@ -4,23 +4,24 @@
    Working notion: [sfits n z] = "z is representable in n bytes two's complement"
    (-256^n <= 2z < 256^n; for n = 0 this is z = 0).  The minimal encoding of z has the least
    length n with [sfits n z] ([bytes_of_int_char]). *)
-From Clvm Require Import Model.IntEnc Proofs.BytesLemmas.
+From Clvm Require Import Model.IntEnc Proofs.BytesLemmas Proofs.IntEncBasics.
 From Coq Require Import Lia ZifyBool ZifyN ZifyNat.
 Ltac Zify.zify_post_hook ::= Z.div_mod_to_equations.
 Open Scope N_scope.
+Arguments pow256 : simpl never.
 
 
 (* ---------------------------------------------------------------- be_bytes *)
 
 Lemma be_bytes_acc_app n v acc : be_bytes_acc n v acc = be_bytes n v ++ acc.
 Proof.
-  unfold be_bytes. revert v acc. induction n as [|n IH]; intros v acc; cbn [be_bytes_acc].
+  unfold be_bytes. revert v acc. induction n as [|n IH]; intros v acc.
   - reflexivity.
-  - rewrite IH. rewrite (IH (v / 256) [v mod 256]). rewrite <- app_assoc. reflexivity.
+  - rewrite !be_bytes_acc_S. rewrite IH. rewrite (IH (v / 256) [v mod 256]). rewrite <- app_assoc. reflexivity.
 Qed.
 
 Lemma be_bytes_S n v : be_bytes (S n) v = be_bytes n (v / 256) ++ [v mod 256].
-Proof. unfold be_bytes at 1. cbn [be_bytes_acc]. apply be_bytes_acc_app. Qed.
+Proof. unfold be_bytes at 1. rewrite be_bytes_acc_S. apply be_bytes_acc_app. Qed.
 
 Lemma be_bytes_0 v : be_bytes 0 v = [].
 Proof. reflexivity. Qed.
@@ -47,7 +48,7 @@ Proof.
 Qed.
 
 Lemma pow256_S n : pow256 (S n) = 256 * pow256 n.
-Proof. unfold pow256. rewrite Nat2N.inj_succ, N.pow_succ_r'. reflexivity. Qed.
+Proof. rewrite !pow256_pow. rewrite Nat2N.inj_succ, N.pow_succ_r'. reflexivity. Qed.
 
 Lemma pow256_0 : pow256 0 = 1.
 Proof. reflexivity. Qed.
@@ -56,7 +57,7 @@ Lemma pow256_pos n : 0 < pow256 n.
 Proof. induction n as [|n IH]; [rewrite pow256_0|rewrite pow256_S]; lia. Qed.
 
 Lemma pow256_mono m n : (m <= n)%nat -> pow256 m <= pow256 n.
-Proof. intros H. unfold pow256. apply N.pow_le_mono_r; lia. Qed.
+Proof. intros H. rewrite !pow256_pow. apply N.pow_le_mono_r; lia. Qed.
 
 Lemma be_value_be_bytes n v : be_value (be_bytes n v) = (v mod pow256 n)%N.
 Proof.
@@ -68,7 +69,7 @@ Proof.
 Qed.
 
 Lemma be_value_lt b : wf_bytes b = true -> be_value b < pow256 (length b).
-Proof. apply be_value_bound. Qed.
+Proof. rewrite pow256_pow. apply be_value_bound. Qed.
 
 Lemma be_bytes_be_value b : wf_bytes b = true -> be_bytes (length b) (be_value b) = b.
 Proof.
@@ -125,7 +126,7 @@ Proof.
   intros H. rewrite wf_bytes_cons in H. apply andb_prop in H. destruct H as [Hx Hr].
   unfold wf_byte in Hx. apply N.ltb_lt in Hx.
   pose proof (be_value_lt r Hr) as Hv.
-  cbn [length]. rewrite pow256_S, be_value_cons. fold (pow256 (length r)).
+  cbn [length]. rewrite pow256_S, be_value_cons. rewrite <- pow256_pow.
   set (Q := pow256 (length r)) in *. set (V := be_value r) in *.
   destruct (N.leb_spec 128 x) as [Hc|Hc]; symmetry.
   - apply N.leb_le. pose proof (N.mul_le_mono_r 128 x Q Hc). lia.
@@ -145,7 +146,7 @@ Proof. unfold Zp256. pose proof (pow256_pos n). lia. Qed.
 Lemma Zp256_mono m n : (m <= n)%nat -> (Zp256 m <= Zp256 n)%Z.
 Proof. intros H. unfold Zp256. pose proof (pow256_mono m n H). lia. Qed.
 Lemma Zp256_Zpow n : Zp256 n = (256 ^ Z.of_nat n)%Z.
-Proof. unfold Zp256, pow256. rewrite N2Z.inj_pow. f_equal. lia. Qed.
+Proof. unfold Zp256. rewrite pow256_pow. rewrite N2Z.inj_pow. f_equal. lia. Qed.
 
 Lemma sfits_mono m n z : (m <= n)%nat -> sfits m z -> sfits n z.
 Proof. unfold sfits. intros H F. pose proof (Zp256_mono m n H). lia. Qed.
@@ -157,7 +158,7 @@ Lemma int_of_bytes_alt b :
    else Z.of_N (be_value b))%Z.
 Proof.
   intros H. destruct b as [|x r]; [reflexivity|].
-  unfold int_of_bytes. rewrite (first_byte_test x r H). fold (Zp256 (length (x :: r))).
+  rewrite int_of_bytes_eq, <- pow256_pow. rewrite (first_byte_test x r H). fold (Zp256 (length (x :: r))).
   unfold Zp256.
   destruct (N.leb_spec (pow256 (length (x :: r))) (2 * be_value (x :: r))) as [Hc|Hc];
   destruct (Z.leb_spec (Z.of_N (pow256 (length (x :: r)))) (2 * Z.of_N (be_value (x :: r)))) as [Hd|Hd];
@@ -239,7 +240,7 @@ Proof.
     apply wf_cons_inv in H. destruct H as [Hx H]. apply wf_cons_inv in H. destruct H as [Hy Hr].
     pose proof (be_value_lt r Hr) as Hv. rewrite Lr in Hv.
     rewrite !be_value_cons. cbn [length]. rewrite Lr.
-    fold (pow256 m). fold (pow256 (S m)). rewrite pow256_S.
+    rewrite <- !pow256_pow. rewrite pow256_S.
     unfold sfits. rewrite !Zp256_S. unfold Zp256.
     pose proof (pow256_pos m) as Hq.
     set (Q := pow256 m) in *. set (V := be_value r) in *.
@@ -263,7 +264,7 @@ Qed.
 
 
 Lemma pow256_pow2 n : pow256 n = 2 ^ (8 * N.of_nat n).
-Proof. unfold pow256. change 256 with (2 ^ 8). rewrite <- N.pow_mul_r. reflexivity. Qed.
+Proof. rewrite pow256_pow. change 256 with (2 ^ 8). rewrite <- N.pow_mul_r. reflexivity. Qed.
 
 Lemma size_lower v : v <> 0 -> 2 ^ (N.size v - 1) <= v.
 Proof.
